@@ -165,6 +165,7 @@ class Lib:
         self.by_norm = {}
         for d, b in self.bodies.items():
             self.by_norm.setdefault(strip_generics(d), []).append(b)
+        self.aliases = {}        # role name used by the checks -> def path in this tree (see ndi/roles.py)
         self.mir = {m['def']: m for m in facts['mir']}
         self.mir_by_norm = {}
         for d, m in self.mir.items():
@@ -172,10 +173,14 @@ class Lib:
 
     def body(self, norm_path):
         """Unique body whose generic-stripped def path equals norm_path; None if absent/ambiguous."""
-        bs = self.by_norm.get(norm_path, [])
+        bs = self.by_norm.get(self.aliases.get(norm_path, norm_path), [])
         if len(bs) == 1:
             return bs[0]
         return None
+
+    def is_role(self, name, role):
+        """does the (generic-stripped) callee name denote the function playing `role`"""
+        return name == self.aliases.get(role, role)
 
     def bodies_matching(self, pred):
         return [b for d, b in self.bodies.items() if pred(strip_generics(d), b)]
